@@ -1,10 +1,10 @@
 package main
 
 import (
-	"go/types"
 	"fmt"
 	"go/constant"
 	"go/token"
+	"go/types"
 	"sort"
 	"strings"
 
@@ -17,8 +17,8 @@ const tpPkg = "apis/trafficpattern"
 
 func propC16() *Property {
 	return &Property{
-		ID:      "C16",
-		Decides: "R16.1 explicit values are never overwritten by implicit generation: every store into the effective pattern in the generate* functions is unreachable when the same field of the original pattern is set; R16.2 implicit values are a function of (seed, unlockAll, explicit fields) only: the generators call no randomness/time source other than rng.FixedInt with a seed-scoped hint (FixedIntVH only to pick a default seed), every generated field has its own hint key, and rng.FixedInt's cache stores a value that does not depend on n (so the same hint with a different range cannot return a stale value); R16.3 generated extremes satisfy the validator: each generator is folded with FixedInt at 0 and at n-1 for both unlockAll values and the resulting field values are fed to the corresponding validate* function; the generated minLen is capped by an explicit maxLen; no generated enum value is outside its name table and NONCE_TYPE_FIXED is never generated; R16.4 consumers: the padding budget stored into prefixLen comes from the middle-padding cap and the one stored into suffixLen from the end-padding cap, maxPaddingSizeWithTrafficPattern folds to min(budget, configured) and 0 for negative, a server sends low entropy only after the client did (folded), clientUseLowEntropy is set only on receipt of dataClientToServerLowEntropy; R16.5 Encode/Decode marshal the whole message with one base64 alphabet.",
+		ID:         "C16",
+		Decides:    "R16.1 explicit values are never overwritten by implicit generation: every store into the effective pattern in the generate* functions is unreachable when the same field of the original pattern is set; R16.2 implicit values are a function of (seed, unlockAll, explicit fields) only: the generators call no randomness/time source other than rng.FixedInt with a seed-scoped hint (FixedIntVH only to pick a default seed), every generated field has its own hint key, and rng.FixedInt's cache stores a value that does not depend on n (so the same hint with a different range cannot return a stale value); R16.3 generated extremes satisfy the validator: each generator is folded with FixedInt at 0 and at n-1 for both unlockAll values and the resulting field values are fed to the corresponding validate* function; the generated minLen is capped by an explicit maxLen; no generated enum value is outside its name table and NONCE_TYPE_FIXED is never generated; R16.4 consumers: the padding budget stored into prefixLen comes from the middle-padding cap and the one stored into suffixLen from the end-padding cap, maxPaddingSizeWithTrafficPattern folds to min(budget, configured) and 0 for negative, a server sends low entropy only after the client did (folded), clientUseLowEntropy is set only on receipt of dataClientToServerLowEntropy; R16.5 Encode/Decode marshal the whole message with one base64 alphabet.",
 		NotDecided: "that emitted bytes have the configured statistical shape; distributions of rng; nonce rewriting content; TCP fragmentation timing.",
 		Rules: []Rule{
 			{ID: "R16.1", Floor: 10, Text: "no store to effective.X.Y is reachable when original.X != nil && original.X.Y != nil", Run: r16_1},
@@ -494,7 +494,11 @@ func r16_3(c *RC) {
 		}
 	}
 	// (c) enums
-	for _, e := range []struct{ fn, hint string; maxAllowed int64; what string }{
+	for _, e := range []struct {
+		fn, hint   string
+		maxAllowed int64
+		what       string
+	}{
 		{"generateNoncePattern", "nonce.type", 2, "NonceType (3 = FIXED needs customHexStrings and must not be generated)"},
 	} {
 		fn := p.Fn(tpPkg, "Config."+e.fn)
@@ -828,7 +832,6 @@ func r16_5(c *RC) {
 		c.Bad("alphabet", enc.Pos(), "Encode uses base64.%s, Decode base64.%s", a, b)
 	}
 }
-
 
 // hintHelper: fn returns fmt.Sprintf("%d:%s", <int param>, <string param>)
 // and nothing else; returns the indices of the seed and the field parameter.
